@@ -563,7 +563,8 @@ fn validate_attribute(j: &J, path: &str, r: &mut Report) {
             "IS" | "DS" => match it {
                 J::Num(_) => {}
                 J::Str(s) if numeric_string(s) => {}
-                J::Str(s) if s.is_empty() => r.note("empty-string-in-value-array", &p),
+                // an empty or blank (padding only) item: the statement checked does not constrain IS/DS
+                J::Str(s) if s.trim_matches(' ').is_empty() => r.note("empty-string-in-value-array", &p),
                 J::Null => {}
                 o => r.v("numeric-string-invalid", &p, format!("{vr} value is {} {:?}", o.kind(), o)),
             },
